@@ -966,5 +966,28 @@ def sql_on_clause(prog: Program) -> RuleResult:
     return r
 
 
+def sql_no_consume(prog: Program) -> RuleResult:
+    """'Executing the produced statement ... returns exactly the rows ... that evaluating the same query in memory returns': translating a query
+    must leave the query as it was.  A variable's declared source is a one-shot stream (let() wraps every domain in a filter); whatever the
+    translator needs from it is read through the caching domain (`_domain_`), which remembers what it pulled.  Pulled from the source
+    directly, the first value is gone for the in-memory evaluation - or, evaluated first, for the translator."""
+    r = RuleResult("SQL-NO-CONSUME", "the translator reads the values of a variable through its caching domain", floor=1)
+    mod = next(m for m in prog.modules.values() if m.name.endswith("ormatic.eql_interface"))
+    n = 0
+    bad = None
+    for f in sorted([f for f in prog.functions.values() if f.module is mod], key=lambda x: x.qual):
+        for x in walk_local(f.node):
+            if isinstance(x, ast.Attribute) and x.attr in ("_domain_", "_domain_source_", "iterable"):
+                n += 1
+            # <variable>._domain_source_.domain / ._domain_.iterable handed to iter / next / list / a loop
+            if isinstance(x, ast.Attribute) and ((x.attr == "domain" and isinstance(x.value, ast.Attribute) and x.value.attr == "_domain_source_") or (x.attr == "iterable" and isinstance(x.value, ast.Attribute) and x.value.attr == "_domain_")):
+                bad = bad or (f, x)
+    r.check(n > 0 and bad is None, "eql_interface#domain-read-through-the-cache", site(bad[0], bad[1]) if bad else mod.relpath, src(bad[1])[:60] if bad else f"{n} read(s) of a variable's domain",
+            "values are taken from the caching domain",
+            f"`{src(bad[1]) if bad else ''}` ({bad[0].short if bad else ''}) reads the one-shot source behind the caching domain: translating the query consumes a value the in-memory evaluation of the same "
+            "query then misses (and after an evaluation the translator finds the source exhausted and binds a symbolic expression as a parameter)")
+    return r
+
+
 def run(prog: Program, tier: str) -> List[RuleResult]:
-    return [guard(lambda: sql_reject(prog)), guard(lambda: sql_ops(prog)), guard(lambda: sql_varid(prog)), guard(lambda: sql_alias(prog)), guard(lambda: sql_fetch(prog)), guard(lambda: sql_membership(prog)), guard(lambda: sql_chain(prog)), guard(lambda: sql_state(prog)), guard(lambda: sql_exact_dao(prog)), guard(lambda: sql_clause_truth(prog)), guard(lambda: sql_cond_attr(prog)), guard(lambda: sql_on_clause(prog))]
+    return [guard(lambda: sql_reject(prog)), guard(lambda: sql_ops(prog)), guard(lambda: sql_varid(prog)), guard(lambda: sql_alias(prog)), guard(lambda: sql_fetch(prog)), guard(lambda: sql_membership(prog)), guard(lambda: sql_chain(prog)), guard(lambda: sql_state(prog)), guard(lambda: sql_exact_dao(prog)), guard(lambda: sql_clause_truth(prog)), guard(lambda: sql_cond_attr(prog)), guard(lambda: sql_on_clause(prog)), guard(lambda: sql_no_consume(prog))]
